@@ -19,6 +19,7 @@ import (
 	"github.com/bronlabs/bron-crypto/pkg/mpc/sharing/accessstructures"
 	"github.com/bronlabs/bron-crypto/pkg/mpc/signatures/ecdsa/dkls23"
 	"github.com/bronlabs/bron-crypto/pkg/mpc/signatures/ecdsa/dkls23/signing_bbot"
+	"github.com/bronlabs/bron-crypto/pkg/mpc/signatures/ecdsa/dkls23/signing_softspoken"
 	"github.com/bronlabs/bron-crypto/pkg/mpc/signatures/ecdsa/lindell17"
 	l17signing "github.com/bronlabs/bron-crypto/pkg/mpc/signatures/ecdsa/lindell17/signing"
 	"github.com/bronlabs/bron-crypto/pkg/network"
@@ -58,7 +59,12 @@ func k256Suite() *ecdsa.Suite[*k256.Point, *k256.BaseFieldElement, *k256.Scalar]
 
 // dkls23Case: DKLs23 (base-OT multiplier) threshold ECDSA signing by quorum on dealt shards, through the runner.
 func dkls23Case(cfg string, ac accessstructures.Monotone, quorum []ID, message []byte) *kase {
-	name := "dkls23bbot/" + cfg
+	return dkls23MultCase("bbot", cfg, ac, quorum, message)
+}
+
+// dkls23MultCase: DKLs23 signing over its runners with the base-OT ("bbot") or the OT-extension ("softspoken") multiplier.
+func dkls23MultCase(mult, cfg string, ac accessstructures.Monotone, quorum []ID, message []byte) *kase {
+	name := "dkls23" + mult + "/" + cfg
 	return &kase{name: name, ids: quorum, sched: true, heavy: true, run: func(x mcrt.Chooser, ks int64, sess int, taps map[ID]*tap) *outcome {
 		base := proto.DealK256(ac, ks, "c07/"+name)
 		shards := map[ID]*dkls23.Shard[*k256.Point, *k256.BaseFieldElement, *k256.Scalar]{}
@@ -73,7 +79,13 @@ func dkls23Case(cfg string, ac accessstructures.Monotone, quorum []ID, message [
 		ctxs := proto.Contexts(quorum, ks, ctxLabel(name, sess))
 		type psig = *dkls23.PartialSignature[*k256.Point, *k256.BaseFieldElement, *k256.Scalar]
 		res, o := runNet(x, quorum, taps, func(ctx context.Context, id ID, rt *network.Router) (psig, error) {
-			r, err := signing_bbot.NewRunner(ctxs[id], suite, shards[id], message, rd(taps, id))
+			var r network.Runner[psig]
+			var err error
+			if mult == "bbot" {
+				r, err = signing_bbot.NewRunner(ctxs[id], suite, shards[id], message, rd(taps, id))
+			} else {
+				r, err = signing_softspoken.NewRunner(ctxs[id], suite, shards[id], message, rd(taps, id))
+			}
 			if err != nil {
 				return nil, err
 			}
